@@ -82,7 +82,7 @@ def model_check(ctx):
         if m["violated"] != want:
             raise Infra("specification mutant %s not caught by %s (got %s)" %
                         (name, want, m["violated"]))
-    r = tlc(ctx, "MC_Session", MC % ("LiveSpec", "TwoClients", 2, 5 if quick else 6,
+    r = tlc(ctx, "MC_Session", MC % ("LiveSpec", "TwoClients", 2, 4 if quick else 5,
                                      "TRUE", "TRUE", "FALSE", "PROPERTIES FreshAfterClose"),
             "mc_sess_live", timeout=3000)
     if not r["ok"]:
